@@ -131,9 +131,9 @@ CLAIMED = {
              "get_human_readable_unit returns a (value, prefix) pair denoting exactly |v| in the incoming unit, with value >= 1 unless the micro "
              "prefix is reached, and in [1,1000) for amounts from 1e-6 to 1 base units; convert_from_storage_to_standard_format returns "
              "exactly the stored amount in g / L / U. The amounts stated by the instruction lines of transfer (volume of a liquid-holding source, "
-             "mass otherwise), fill_to, dilute and create_solution with a container as solvent are modelled (Instr2.v, InstrSol.v) and proved equal to the "
+             "mass otherwise), fill_to, dilute, create_solution with a container as solvent and create_solution_from are modelled (Instr2.v, InstrSol.v, CsfInstr.v) and proved equal to the "
              "amounts moved / added / drawn; they are compared with the parsed instruction lines on every run. The remaining texts (create_solution "
-             "with a substance solvent, create_solution_from, plate-to-plate naming, recipe step instructions) "
+             "with a substance solvent, create_solution_from with a container solvent, plate-to-plate naming, recipe step instructions) "
              "are checked against the actual deltas by an oracle on the implementation only (partial).",
              technique="Coq proof over Q (case analysis of the rescaling cascade, field); enumerated correspondence over magnitudes x prefixes x kinds; instruction-text read-back oracle",
              design="5 C19"),
